@@ -621,7 +621,7 @@ func (c groupCase) describe(outs []nestOut) string {
 
 func TestC07Grouped(t *testing.T) {
 	fw.Run(t, fw.Spec[groupCase]{
-		ID: "C07", Name: "grouped", Quick: 5000, Thorough: 100000,
+		ID: "C07", Name: "grouped", Quick: 5000, Thorough: 80000,
 		Gen: genGroupCase, Check: checkGroup,
 		Rule: "tables as in 'sort' (>= 1 row) with two more columns: a group number g (1-6 groups; for 40% of the large tables 160-240 groups) and a small integer w with 0-50% NULLs; query SELECT g, [LISTAGG(id, ',') | JSON_AGG(id)] [WITHIN GROUP (ORDER BY keys as in 'sort')] FROM t GROUP BY g ORDER BY 0-3 of {g, COUNT(*), COUNT(k), SUM(w), MIN(id), MAX(id)} with directions and NULLS FIRST/LAST (30% named through a select-list alias), 60% with LIMIT/OFFSET/PERCENT/WITH TIES over the groups; 12% without GROUP BY (one list over the whole table). Oracle: the reference computes the aggregates per group and applies the 'cut' oracle to the groups (one row per group, SUM over NULLs only = NULL key); every returned list must hold exactly the ids of its group, ordered by the WITHIN GROUP keys (tie groups of the reference order never decrease). Non-trivial = >= 2 groups ordered by at least one aggregate with a cut that (if present) removes and keeps groups, or a list over >= 2 rows with >= 2 distinct sort-key tuples; distinct by (group keys/directions/null positions/alias, cut kind, NULL key present, tied groups, list function and its keys, source, size class)",
 		Assumptions: []string{assumeDomain, assumeNeg, assumePct,
